@@ -233,6 +233,20 @@ func (s *Session) staticCall(fr *Frame, fn *ssa.Function, bindings []Val, args [
 		if strings.HasPrefix(fn.Name(), "Get") && len(fn.Blocks) > 0 && fr.depth < maxInlineDepth+2 {
 			return s.inline(fr, fn, bindings, args, st)
 		}
+		switch fn.Name() {
+		case "Unmarshal", "XXX_Unmarshal", "UnmarshalJSON", "Reset", "XXX_Merge", "XXX_DiscardUnknown":
+			// decoding fills the receiver with arbitrary content
+			if len(args) > 0 && isPointer(args[0].Typ) {
+				loc := s.toLoc(args[0])
+				nv := s.opaqueVal(loc.Typ, "decoded")
+				s.assume(Imp(st.Reach, And(s.rangeFacts(nv), s.refFacts(st, nv))))
+				s.store(st, loc, nv)
+				nt := s.fresh("top", SInt)
+				s.assume(Ge(nt, st.Top))
+				st.Top = nt
+			}
+			return s.freshResult(st, res, fn.Name())
+		}
 		return s.pureCall(fn, args, st)
 	}
 	if hasPrefixAny(pkg, purePkgs) || opaque {
@@ -1229,6 +1243,8 @@ func calleeName(cc *ssa.CallCommon) string {
 		return c.Name()
 	case *ssa.MakeClosure:
 		return c.Fn.Name()
+	case *ssa.Parameter:
+		return c.Name() // call through a function-valued parameter
 	}
 	return ""
 }
